@@ -72,14 +72,14 @@ def scen_universe(ch, params, out):
     bad = oracles.normal_form_violations(o1, gen.str_types_registry)
     out.check(not bad, "not_normal_form", lambda: f"{wrap} of Union{names} simplifies to {o1}: {bad}",
               "not_normal_form:" + (bad[0].split(": ", 1)[1].split(" ")[0] if bad else ""))
-    c1 = repr(oracles.canon_type(o1))
+    c1 = oracles.canon_str(oracles.canon_type(o1))
     try:
         o2 = gen.optimize_type(o1)
     except Exception as e:
         out.fail("second_pass_raises", f"second optimize_type raised {type(e).__name__}: {e} on {o1} (from {wrap} of Union{names})",
                  f"second_pass_raises:{type(e).__name__}")
         return
-    c2 = repr(oracles.canon_type(o2))
+    c2 = oracles.canon_str(oracles.canon_type(o2))
     out.check(c1 == c2, "not_idempotent", lambda: f"{wrap} of Union{names}: first pass {c1}, second pass {c2}", "not_idempotent")
 
 
@@ -95,14 +95,14 @@ def scen_inputs(ch, params, out):
     for m in reg.models:
         bad = oracles.normal_form_violations(m.type, gen.str_types_registry)
         out.check(not bad, "not_normal_form", lambda: f"model {m.name}: {bad} for samples {st['samples']}", "not_normal_form:input")
-    before = repr(oracles.canon_registry(reg))
+    before = oracles.canon_registry(reg)
     try:
         for m in reg.models:
             gen.optimize_type(m)
     except Exception as e:
         out.fail("second_pass_raises", f"{type(e).__name__}: {e} for samples {st['samples']}", f"second_pass_raises:{type(e).__name__}")
         return
-    after = repr(oracles.canon_registry(reg))
+    after = oracles.canon_registry(reg)
     out.check(before == after, "not_idempotent", lambda: f"{before} -> {after} for samples {st['samples']}", "not_idempotent")
 
 
